@@ -306,7 +306,10 @@ func checkC09(c CaseC09, info *Info) *Failure {
 				x2j.XmlLeafPath(xb)
 				mxj.SetAttrPrefix(c.Prefix)
 				if m2, derr := mxj.NewMapXml(xb); derr == nil {
-					xb = reuseBuffer(xb, true, func(b []byte) { x2j.XmlLeafNodes(b); x2j.XmlLeafPath(b); x2j.XmlLeafValues(b) })
+					if len(xb)%2 == 0 {
+						// (in the other half the wrappers go from the call under another prefix straight to the real one)
+						xb = reuseBuffer(xb, true, func(b []byte) { x2j.XmlLeafNodes(b); x2j.XmlLeafPath(b); x2j.XmlLeafValues(b) })
+					}
 					xl, xerr := x2j.XmlLeafNodes(xb)
 					cl := m2.LeafNodes()
 					xp, xv := make([]string, len(xl)), make([]interface{}, len(xl))
